@@ -2,7 +2,7 @@
 import re
 
 from .lib import PLUMBING, callee_allow, closure_args_of_call, lit_strs, operand_local, root_fn
-from .lib_c08 import Flow, Origins, TypeWalk, field_reads, field_writes, gen_role
+from .lib_c08 import Flow, Origins, field_reads, field_writes, gen_role
 
 LEVEL = "other"
 TECHNIQUE = ("static analysis: source/sink flow and per-iteration edge dominance on gen_openapi's MIR, sibling agreement between the document iterator and the router, "
@@ -12,7 +12,8 @@ LEVEL_TEXT = ("Decides on all paths of gen_openapi and of the router iterator: (
               "the router uses; (R2) nothing derived from an endpoint is written to the document unless that endpoint's `visible` is true in the same iteration, and the router/server "
               "never read `visible`; (R3) the operation goes to paths[iterator path], into the PathItem slot named like the method (8-row table, identity, covers every method the "
               "macro can emit), carries the endpoint's operation_id and is stored on every non-panicking path; (R4) every Static schema's dependencies are added to `definitions`, every "
-              "Gen schema uses the one generator, both are flushed into components.schemas, error responses are stored under the name their reference was formatted from; "
+              "Gen schema uses the one generator, both are flushed into components.schemas, error responses are stored under the name their reference was formatted from; (R4b) the dependencies of a Static schema are closed under $ref "
+              "(ReferenceVisitor records and recursively visits every referenced definition; every Static is built from such a visit of the stored schema or is a $ref-free constant); "
               "(R5) hash-ordered iteration reaches only openapi.tags, which is sorted by a total key before return; no clock/random/env callee; (R6) gen_openapi is a pure function of "
               "&self; (R7) the router's containers and the document's maps are ordered. Not decided: that HttpRouterIter::next visits every trie node exactly once (loop-carried stack), "
               "the literal text of the `#/components/responses/` prefix (format templates are opaque to the extractor), uniqueness of generated schema names inside schemars.")
@@ -143,6 +144,9 @@ def r1_same_filter(ctx):
         return
     sites = [(f, bb, t) for f in m.region for bb, t in f.live_calls(r"^router::HttpRouter::<Context>::endpoints$")]
     for f, bb, t in sites:
+        if len(t["args"]) < 2:
+            ctx.check(R, "endpoints-arg:%s:?" % _sfx(f), False, "router.endpoints called without a version argument", (f, bb))
+            continue
         o = m.flow.origins(f, t["args"][1])
         some = ("std::option::Option", "Some") in o.aggs
         none = ("std::option::Option", "None") in o.aggs
@@ -157,6 +161,9 @@ def r1_same_filter(ctx):
     cs = [(f, bb, t) for f, bb, t in ds.callers_of(GEN) if bb in f.reachable(0)]
     for f, bb, t in cs:
         fl = Flow(ds, entries=[f.raw["id"]])
+        if len(t["args"]) < 3:
+            ctx.check(R, "gen-version-arg:%s" % f.id.split("::")[-1], False, "gen_openapi is called without a version argument", (f, bb))
+            continue
         o = fl.origins(f, t["args"][2])
         ok = ("api_description::OpenApiDefinition", "version") in o.fields and o.roots == {(f.id, 1)} and not _plumbing_only(o)
         ctx.check(R, "gen-version-arg:%s" % f.id.split("::")[-1], ok, "gen_openapi's version argument is &self.version of the OpenApiDefinition: %s (origins %s)" % (ok, sorted(o.fields)), (f, bb))
@@ -683,6 +690,12 @@ def r4_refs_resolve(ctx):
             okr = any(c.endswith("or_insert_with") for c in v.calls)
             kk = m.flow.origins(g, t["args"][1])
             rng = sorted(a[1] for a in kk.aggs if a[0] == "openapiv3::StatusCode")
+            for a in g.slice(t["args"][1]).atoms:
+                if a[0] == "lit" and a[2] in ("u16", "u8", "u32"):
+                    try:
+                        rng.append("%sxx" % __import__("json").loads(a[1])["int"])
+                    except Exception:
+                        pass
             ctx.check(R, "error-ref-is-entry-reference:%s" % "+".join(rng), okr, "the 4xx/5xx response is the `reference` of the error_responses entry that will be stored: %s" % okr, (g, bb))
         ctx.check(R, "error-ref-sites", len(refs) == 2, "operation.responses inserts of an error reference: %d" % len(refs), g, nontrivial=False)
 
